@@ -202,6 +202,12 @@ def cases(tier, seed):
             yield {"k": "retry", "gen": gen, "seed": rnd.randrange(1 << 30), "step": step,
                    "pause": pause, "calls": calls, "again_after_true": step < 0.5}
     for gen in (4, 5):
+        for step, give_up, pause, calls in ((0.3, 0.5, 0.0, 8), (0.3, 1.0, 0.5, 6),
+                                            (0.05, 0.1, 0.0, 8), (0.9, 2.0, 0.1, 6),
+                                            (0.3, 0.01, 0.2, 12)):
+            yield {"k": "retry", "gen": gen, "seed": rnd.randrange(1 << 30), "step": step,
+                   "pause": pause, "calls": calls, "give_up": give_up}
+    for gen in (4, 5):
         for steady, pause in ((0.0, 0.0), (1.0, 6.0), (400.0, 0.5)):
             yield {"k": "overlap", "gen": gen, "seed": rnd.randrange(1 << 30), "steady": steady,
                    "pause": pause}
@@ -266,7 +272,16 @@ def run_retry(case):
         w = AW.ModelWorld(gen, loop, net, log, inst, knobs)
         rets = []
         for attempt in range(case["calls"]):
-            r = await H.probe(log, "init", w.at.init())
+            if case.get("give_up"):
+                # the application has a shorter time-out of its own: it cancels the pending
+                # init() and tries again
+                r = await H.probe(log, "init", asyncio.wait_for(w.at.init(), case["give_up"]))
+                if isinstance(r, asyncio.TimeoutError):
+                    r = "gave up"
+                    obs["init_calls_cancelled_by_the_application"] = obs.get(
+                        "init_calls_cancelled_by_the_application", 0) + 1
+            else:
+                r = await H.probe(log, "init", w.at.init())
             rets.append(r)
             if r is True and not case.get("again_after_true"):
                 break
@@ -295,7 +310,7 @@ def run_retry(case):
         return RM.diff(w.model.expected(), H.snapshot(w.at))[:3]
 
     _, log, st = H.run(main)
-    info = {k: case[k] for k in ("gen", "step", "pause", "calls")}
+    info = {k: case.get(k) for k in ("gen", "step", "pause", "calls", "give_up")}
     if st != "ok":
         viol.append({"mechanism": "init-retry-scenario-hang", "detail": dict(info, status=st)})
     elif any(isinstance(r, Exception) for r in out["rets"]):
